@@ -37,6 +37,7 @@ def auto_detect_input(prg: Iterable[AST]) -> list[Predicate]:
     given a program return a list of all predicates that occur in the program
     but are not derivable in a head
     """
+    prg = list(chain.from_iterable(stm.unpool() for stm in prg))  # the predicate of a pooled atom is not visible
     all_preds: set[Predicate] = set()
     derivable_preds: set[Predicate] = set()
     in_body: dict[Predicate, set[int]] = defaultdict(set)
@@ -63,7 +64,7 @@ def auto_detect_output(prg: Iterable[AST]) -> list[Predicate]:
     given a program return a list of all predicates used in show statements
     """
     output: set[Predicate] = set()
-    for stm in prg:
+    for stm in chain.from_iterable(stm.unpool() for stm in prg):  # the predicate of a pooled atom is not visible
         if stm.ast_type == ASTType.ShowSignature:
             output.add(Predicate(stm.name, stm.arity))
         elif stm.ast_type == ASTType.ShowTerm:
